@@ -6,7 +6,6 @@
 //! parks the baton holder in the kernel, and a cycle of waits is reported as a deadlock instead of
 //! hanging. Everything else is forwarded to the kernel unchanged.
 #![cfg(all(target_os = "linux", target_arch = "x86_64", not(miri)))]
-use std::sync::atomic::{AtomicU32, Ordering};
 
 const SYS_FUTEX: i64 = 202;
 const EAGAIN: i32 = 11;
@@ -37,28 +36,30 @@ unsafe fn intercept(addr: usize, op: i64, val: u32, timeout: usize, a1: i64, a2:
     if crate::sched::in_scheduler() {
         return None;
     }
-    let (sched, tid) = crate::tls::sim_sched()?;
-    let sched = &*sched;
     match op & 0x7f {
         // FUTEX_WAIT, FUTEX_WAIT_BITSET
         0 | 9 => {
+            let (sched, tid) = crate::tls::sim_sched()?;
+            let sched = &*sched;
             if timeout != 0 {
                 // timed waits (park_timeout, wait_timeout) wake up by themselves: let the kernel do it
                 return None;
             }
-            let cur = (*(addr as *const AtomicU32)).load(Ordering::SeqCst);
-            if cur != val {
-                *__errno_location() = EAGAIN;
-                return Some(-1);
-            }
-            if sched.futex_wait(tid, addr) {
-                Some(0)
-            } else {
-                None
+            match sched.futex_wait(tid, addr, val) {
+                Some(true) => Some(0),
+                Some(false) => {
+                    *__errno_location() = EAGAIN;
+                    Some(-1)
+                }
+                None => None,
             }
         }
-        // FUTEX_WAKE, FUTEX_WAKE_BITSET
+        // FUTEX_WAKE, FUTEX_WAKE_BITSET: from a simulated thread or from any other thread of the process
         1 | 10 => {
+            let sched: &crate::sched::Sched = match crate::tls::sim_sched() {
+                Some((s, _)) => &*s,
+                None => crate::sched::active()?,
+            };
             let woken = sched.futex_wake(addr, val as usize) as i64;
             // there may be real sleepers as well (a thread that went to the kernel in free-run mode)
             let real = raw(SYS_FUTEX, a1, a2, a3, a4, a5, a6);
